@@ -174,6 +174,9 @@ func Run(c *core.Ctx) {
 		paths := n.Paths()
 		doOrient(c, n, paths[c.G.Intn(len(paths))])
 	}
+	for i := 0; i < c.Scale(150, 4000); i++ {
+		indexCase(c)
+	}
 	if c.Gotree != "" {
 		m := c.Scale(112, 1400)
 		for i := 0; i < m; i++ {
@@ -633,6 +636,10 @@ func Replay(c *core.Ctx, lines []string) {
 		}
 		if f[0] == "C05.cli" {
 			replayCLI(c, f)
+			continue
+		}
+		if f[0] == "C05.index" && len(f) >= 3 {
+			replayIndex(c, f)
 			continue
 		}
 		n, err := core.ParseDump(f[1])
